@@ -1453,7 +1453,7 @@ func init() {
 					"the varying operand (v, vs[i], m.k, g(), (v), a parameter) sits in the list of `in` / the case list as a direct element, inside nested list literals or as the VALUE of nested map literals "+
 					"(%d fixed wrappers x 4 drivers all met over the first 56 case indices, plus random wrappers; also as the KEY of a map literal, with string values), next to 0..2 constant elements, or in the subject against an all-constant list; "+
 					"subjects per round are the wrapped value of this round, of the first round, of the previous round, near misses, constants. Per round: in = switch = OR(== of that round), != negates ==, == follows the statement's rule. "+
-					c06R6Rule()+c06R7Rule()+c06R8Rule+
+					c06R6Rule()+c06R7Rule()+c06R8Rule+c06R10Rule+
 					"Every evaluation is one vm.Execute whose boolean enters an algebraic law or a reference rule of the statement (non-trivial); distinct = distinct (source, bound values).", n*n, n, nViews,
 					c06LongEnumCases(), len(c06LongInts), len(c06LongLens), len(c06LongKinds), len(c06FixedWraps)),
 				Assumptions: append([]string{
@@ -1466,7 +1466,7 @@ func init() {
 					"equality, membership and switch matching are relations on the values the operands have at the moment of the evaluation: evaluating the same expression again after its operands changed must answer for the new values (vm.Run of one parsed tree several times is a supported use of the API)",
 					"no decimal numeral denotes an infinity: a well-formed numeral whose value lies beyond the float64 range denotes a finite number no float64 holds, so it equals neither +Inf nor -Inf nor any other float (math/big.Rat decides 'beyond the range': the exact value rounds to no finite float64)",
 					"`in` is the existential closure of == over the elements of its right operand whatever Go type that list has ([]interface{}, []string, []int64, []float64, []bool; bound by the host, returned by a host function or strings.Split/Fields, made by make, written as a typed literal, a view of a longer slice, stored in a container): the elements are read back with tl[j] and x == tl[j] is observed in the same environment; typed lists only occur as the right operand of `in`, never as operands of == (typed against untyped containers: the statement is silent)",
-				}, append(c06R7Assumptions(), c06R8Assumptions...)...),
+				}, append(append(c06R7Assumptions(), c06R8Assumptions...), c06R10Assumptions...)...),
 				Phases: append([]fw.Phase{
 					{Name: "enum", Cases: n + 1 + nViews, Chunk: 6, Exhaust: true, TimeoutS: 600},
 					{Name: "rand", Cases: nRand, Chunk: 50, TimeoutS: 900},
@@ -1477,11 +1477,14 @@ func init() {
 					{Name: "typed", Cases: c06TypedEnumCases() + nTyped, Chunk: 8, Jobs: 4, TimeoutS: 900, MemMB: 3072},
 					{Name: "ptr", Cases: c06PtrEnumCases() + nPtr, Chunk: 3, Jobs: 4, TimeoutS: 900, MemMB: 3072},
 					{Name: "uns", Cases: c06UnsEnumCases() + nUns, Chunk: 6, Jobs: 4, TimeoutS: 900, MemMB: 3072},
-				}, c06R8Phases(tier)...),
+				}, append(c06R8Phases(tier), c06R10Phases(tier)...)...),
 			}
 		},
 		Run: func(c *wk.Case) {
 			if c06R8Run(c) { // phases stream, hot, big, crowd: c06_r8.go
+				return
+			}
+			if c06R10Run(c) { // phase midfault: c06_r10.go
 				return
 			}
 			base := ank.NewCoreEnv()
